@@ -116,10 +116,21 @@ impl<Front: SocketHandler> ExpectProxyProtocol<Front> {
     }
 
     pub fn readable(&mut self, metrics: &mut SessionMetrics) -> SessionResult {
-        let total_len = match self.header_len {
+        let stage_len = match self.header_len {
             HeaderLen::V4 => 28,
             HeaderLen::V6 => 52,
             HeaderLen::Unix => 232,
+        };
+        // Never read past the end of the header: what follows it on the
+        // socket is the client's payload (or, on an HTTP listener, its first
+        // request). The 16-byte fixed part comes first; once it is in, its
+        // length field says exactly where the address block and TLVs end.
+        let total_len = if self.index < 16 {
+            stage_len.min(16)
+        } else {
+            let declared =
+                u16::from_be_bytes([self.frontend_buffer[14], self.frontend_buffer[15]]) as usize;
+            stage_len.min(16 + declared)
         };
 
         // Anti-oversized-header / partial-read invariant: the accumulation
@@ -235,6 +246,23 @@ impl<Front: SocketHandler> ExpectProxyProtocol<Front> {
                 SessionResult::Upgrade
             }
             Err(Err::Incomplete(_)) => {
+                // Every byte the length field announced is in, yet the parser
+                // wants more: the address block is too short for its family.
+                // No further read can complete this header.
+                if self.index >= 16 {
+                    let declared =
+                        u16::from_be_bytes([self.frontend_buffer[14], self.frontend_buffer[15]])
+                            as usize;
+                    if self.index >= 16 + declared {
+                        error!(
+                            "{} proxy protocol address block shorter than its family requires, closing",
+                            log_context!(self)
+                        );
+                        incr!(names::proxy_protocol::ERRORS);
+                        self.frontend_readiness.reset();
+                        return SessionResult::Close;
+                    }
+                }
                 match self.header_len {
                     HeaderLen::V4 => {
                         if self.index == 28 {
